@@ -102,7 +102,7 @@ def run_config(fn, params, cfg_key, seed=0, tier="quick", options=None, max_path
         if key in seen_plans:
             continue
         seen_plans.add(key)
-        opts["deadline"] = t0 + budget * 1.5
+        opts["deadline"] = t0 + budget
         ctx = Ctx(plan=plan, seed=seed, options=opts)
         B = SymBackend(ctx, cfg_key, seed, tier)
         B.refuted = {v["obligation"] for v in res["violations"]}
